@@ -201,7 +201,9 @@ func init() {
 		case *Sym:
 			neg := append(append([]*Sym{}, e.pc...), e.sol.Not(c))
 			e.assertQueries++
-			if e.sol.Check(neg) {
+			sat := e.sol.Check(neg)
+			e.sol.keepForRecheck(neg, sat)
+			if sat {
 				save := e.pc
 				e.pc = neg
 				e.failNow("assert", label, "")
